@@ -4,6 +4,8 @@ for l in open('/verif/properties.jsonl'):
     p=json.loads(l)
     if p['id']==pid: break
 VARIANT = {
+ '12': 'one located NOT in the code the property is anchored in but in a SHARED HELPER or lower layer that this code relies on (the packet parser / packer, the crypto helpers, string and encoding utilities, the database layer, the event / packager constructors, the logger, the in-tree HCL fork\'s lower layers such as the scanner, cty conversion glue, diagnostics or ranges, the websocket / gin glue) - a change that looks like a harmless clean-up or generalisation of that helper and that is right for most of its callers, but breaks THIS property through the particular way the anchored code uses the helper (an argument value only this caller passes, a return convention only this caller depends on, an ordering or aliasing guarantee only this caller needs)',
+ '13': 'one whose effect depends on a COUNT, SIZE or ACCUMULATION: it shows only after the N-th operation, when a collection grows past a threshold, when a counter or identifier wraps or collides, when a buffer is reused after growing, when a table has more than one page / batch, or when two sizes are equal - with N or the threshold well above what a handful of operations reaches but still reachable (hundreds to a few ten thousands of operations, kilobytes to a few megabytes)',
  '11': 'one of your own choosing that you judge MOST LIKELY TO SLIP THROUGH a thorough property-based / fuzzing test suite written by someone who knows this property well (thousands of generated inputs, histories, schedules and faults per run against reference models and round-trip / differential oracles), and that depends on a CONJUNCTION: two or three conditions that are each ordinary and each well covered when testing, but that rarely occur TOGETHER in one generated case (a particular option or configuration value combined with a particular message kind or value class; a particular earlier step combined with a particular later one; a second object of another type existing at the same time; a feature switched on in the profile combined with a particular input) - neither condition alone may show the problem',
  '1': 'first one',
  '2': 'second one, different in kind from the most obvious one',
